@@ -453,8 +453,10 @@ func (v *VM) run() {
 				} else if highIdx > numElements {
 					highIdx = numElements
 				}
+				// the slice of an immutable array is a mutable array: it must
+				// not share the immutable array's storage
 				var val Object = &Array{
-					Value: left.Value[lowIdx:highIdx],
+					Value: append([]Object{}, left.Value[lowIdx:highIdx]...),
 				}
 				v.allocs--
 				if v.allocs == 0 {
